@@ -909,6 +909,34 @@ def attributes_inline_or_by_group(ctx):
                      kind="factory")
 
 
+def untyped_elements_under_odd_prefix_bindings(ctx):
+    """An element declared without a type (anyType by default) means the same whatever the document binds the
+    customary prefixes xs / xsd to - also when `xs` names the target namespace and XML Schema goes by another prefix."""
+    schema = ('<xsd:element name="f"><xsd:complexType><xsd:sequence><xsd:element name="u"/><xsd:element name="s" '
+              'type="xsd:string"/></xsd:sequence></xsd:complexType></xsd:element>')
+    base = wsdlkit.wsdl_doc(schema, "f", None).decode()
+    renderings = {"plain": base,
+                  "xs-is-target-namespace": base.replace("<wsdl:definitions ", '<wsdl:definitions xmlns:xs="%s" ' % wsdlkit.TNS, 1),
+                  "xs-is-something-else": base.replace("<wsdl:definitions ", '<wsdl:definitions xmlns:xs="urn:other" ', 1),
+                  "xs-on-the-schema": base.replace("<xsd:schema ", '<xsd:schema xmlns:xs="%s" ' % wsdlkit.TNS, 1)}
+    want = [["u", "s"], [["u", "v"], ["s", "w"]]]
+    for rname, w in renderings.items():
+        meta = {"stream": "untyped-elements-odd-prefixes", "rendering": rname}
+        ctx.case(common.canon(meta), True)
+        try:
+            c = wsdlkit.client(w.encode(), nosend=True)
+            m = c.service.f.method
+            env = wsdlkit.envelope_bytes(c.service.f("v", "w"))
+            fn = xmlread.find1(xmlread.find1(xmlread.parse(env), "Body"), "f")
+            got = [[str(d[0]) for d in m.binding.input.param_defs(m)], [[k["name"][1], k.get("text")] for k in fn["children"]]]
+        except Exception as e:
+            got = "%s: %s" % (type(e).__name__, e)
+        if got != want:
+            ctx.fail("two renderings of one interface build different clients", meta, repr(got), repr(want), kind="request")
+    from harness.props import c12
+    c12.store_and_split_namespace(ctx)        # (one namespace in two documents, joined by xsd:include or an own-namespace xsd:import)
+
+
 def prefix_numbering(ctx):
     """The generated prefixes (ns0, ns1, ...: what str(client) shows and factory.create('nsN:Type') understands) do not
     depend on the order in which a WSDL declares its schema blocks and types - with namespace sorting on or off."""
@@ -964,6 +992,7 @@ def run(ctx):
     two_port_types_with_one_operation_name(ctx)
     groups_twice_ref_defaults_and_shared_names(ctx)
     attributes_inline_or_by_group(ctx)
+    untyped_elements_under_odd_prefix_bindings(ctx)
     ctx.sample({"graph": [[1, [2, 3]], [2, [1]], [3, []]], "note": "D14 witness graph"})
 
 
